@@ -2,6 +2,7 @@ package checks
 
 import (
 	"fmt"
+	"regexp"
 	"strings"
 
 	"verif/internal/fw"
@@ -71,6 +72,7 @@ type judgeOpts struct {
 	NoKind    bool // do not compare the calibrated message
 	NoLine    bool
 	SigPrefix string // signature detail
+	NoOneLine bool   // do not also run the one-line layout
 	Machine   *model.Machine
 }
 
@@ -81,7 +83,11 @@ type judgeOpts struct {
 func judge(c *fw.Ctx, prog []*model.N, jo judgeOpts) (o h.Outcome, res *model.Result, skipped bool) {
 	prog = parenAll(prog)
 	src := model.Render(prog)
-	return judgeSrc(c, src, prog, jo)
+	o, res, skipped = judgeSrc(c, src, prog, jo)
+	if !skipped && o.Panic == "" && !o.Diverged && !jo.NoOneLine {
+		judgeOneLine(c, prog, jo, o, res)
+	}
+	return o, res, skipped
 }
 
 func judgeSrc(c *fw.Ctx, src string, prog []*model.N, jo judgeOpts) (o h.Outcome, res *model.Result, skipped bool) {
@@ -146,6 +152,44 @@ func judgeSrc(c *fw.Ctx, src string, prog []*model.N, jo judgeOpts) (o h.Outcome
 	}
 	return o, res, false
 }
+
+// judgeOneLine runs the same program written on a single line: what it prints and whether
+// it fails must not depend on the layout (every operation then reports line 1).
+func judgeOneLine(c *fw.Ctx, prog []*model.N, jo judgeOpts, multi h.Outcome, res *model.Result) {
+	src := model.RenderOneLine(prog)
+	if strings.Contains(src, "//") {
+		return // a line comment would swallow the rest
+	}
+	o := h.RunFile(src, h.Opts{Stdin: jo.Stdin, Prefix: jo.Prefix, Fuel: fuelFor(res)})
+	c.Eval(src, true)
+	base := fw.Replay{Mode: "file", Program: src, Stdin: jo.Stdin, Choices: jo.Prefix, CLI: len(jo.Prefix) == 0, InStdout: o.Stdout, InStderr: o.Stderr, InStatus: o.Status}
+	if abnormal(c, o, "file", src, base) {
+		return
+	}
+	if o.Stdout != multi.Stdout || o.Status != multi.Status || lineTagRe.ReplaceAllString(o.FirstDiag(), "[line _]") != lineTagRe.ReplaceAllString(multi.FirstDiag(), "[line _]") {
+		r := base
+		r.Sig = c.Check + "|one-line-layout"
+		if jo.SigPrefix != "" {
+			r.Sig += "|" + strings.SplitN(jo.SigPrefix, "|", 2)[0]
+		}
+		r.What = "the program written on one line behaves differently from the same program on several lines"
+		r.Expected = fmt.Sprintf("stdout %q status %d diag %q", multi.Stdout, multi.Status, multi.FirstDiag())
+		r.Observed = fmt.Sprintf("stdout %q status %d diag %q", o.Stdout, o.Status, o.FirstDiag())
+		c.Violate(r)
+		return
+	}
+	if res.Err != nil && res.Err.Line > 0 && o.Stderr != "" {
+		if got := runtimeDiagLine(o.Stderr); got != 1 && !strings.Contains(src[:len(src)-1], "\n") {
+			r := base
+			r.Sig = c.Check + "|one-line-layout|error-line"
+			r.What = "a one-line program reports its error on another line"
+			r.Expected, r.Observed = "[line 1]", fmt.Sprintf("[line %d]", got)
+			c.Violate(r)
+		}
+	}
+}
+
+var lineTagRe = regexp.MustCompile(`\[line [0-9]+\]`)
 
 // parenAll inserts the grouping nodes the ladder requires so that the
 // rendered text parses back to exactly the given trees.
